@@ -220,6 +220,14 @@ fn base_strategy(ty: IntTy) -> BoxedStrategy<i128> {
         1 => (0u32..21).prop_map(|k| 10i128.pow(k)),
         1 => (0u32..20).prop_map(|k| -(10i128.pow(k))),
         2 => (min..=max),
+        // log-uniform magnitudes: every bit length equally often (thresholds such as
+        // 2^24, 10^15, 2^50..2^53 sit at particular magnitudes, not at the type bounds)
+        4 => (0u32..66, any::<u64>(), any::<bool>()).prop_map(move |(bits, r, neg)| {
+            let m: i128 = if bits == 0 { 0 } else { ((1u128 << (bits - 1)) | (r as u128 & ((1u128 << (bits - 1)) - 1))) as i128 };
+            let v = if neg { -m } else { m };
+            // keep it within two units of the type's range so that the rounding path, not only the range test, is exercised
+            v.clamp(min - 2, max + 2)
+        }),
     ]
     .boxed()
 }
@@ -325,4 +333,18 @@ fn run(e: &Engine) {
         // coverage-guided: arbitrary decimal spellings against the exact-arithmetic oracle
         e.fuzz("fuzz-c07_dec", "c07_dec", 64_000_000, |b| decode_text(b).unwrap_or(Case::Decimal { ty: IntTy::U8, lit: "0".into() }), check);
     }
+    // bounded-exhaustive: EVERY letter string up to a length as a character datum for every integer
+    // type (only the MINimum / MAXimum forms may convert; anything else must be rejected)
+    const LETTERS: &[u8] = b"ABCDEFGHIJKLMNOPQRSTUVWXYZ";
+    let kw = crate::gen::enumstr::Partitioned { alpha: LETTERS, max_len: if cfg!(debug_assertions) { e.tier.pick(3usize, 4) } else { e.tier.pick(4usize, 5) }, prefix_len: 2 };
+    let kwr = &kw;
+    e.enumerate::<Case, _, _>(
+        "every-letter-string-as-keyword",
+        kw.parts() * IntTy::ALL.len() as u64,
+        move |p, f| {
+            let ty = IntTy::ALL[(p / kwr.parts()) as usize];
+            kwr.run(p % kwr.parts(), &mut |s| s.is_empty() || f(Case::Keyword { ty, word: String::from_utf8_lossy(s).into_owned() }))
+        },
+        check,
+    );
 }
